@@ -453,3 +453,106 @@ Proof.
   split; eexists; vm_compute; reflexivity.
 Qed.
 (* ---- end audit follow-up (round 2) ---- *)
+
+(* ==== round3 c0102 begin ==== *)
+(* ---- round 3 (audit top-12 item 4) ---------------------------------------------------------------
+   (a) the packet-level accessors of a STRICT result -- SlicedPacket::{payload_ether_type,
+   ether_payload, ip_payload, is_ip_payload_fragmented, vlan, vlan_ids}, Parse/PacketAccess.v, with
+   push_unchecked on a full ArrayVec = Bug SITE_PUSH -- return normally for every result of the four
+   strict entry points: each run is `Ok tt` (none of them has an Err arm).  No `bytes_ok` needed. *)
+From EP Require Import Parse.PacketAccess Parse.PacketAccessProofs.
+
+Theorem C02_strict_packet_accessors_total : forall bs et p, entry bs et p ->
+  forall r, In r (SlicedPacketPA.packet_accessors p) -> r = Ok tt.
+Proof. exact strict_packet_accessors_total. Qed.
+Print Assumptions C02_strict_packet_accessors_total.
+
+(* (b) the TCP-option and NDP-option iterator clauses, inside C02: on EVERY window / byte area the
+   iteration returns -- no OOB read, no panic, no UB item, the loop bound length+1 of the models is
+   never exhausted --, yields at most one item per byte (TCP) / one accepted option per 8 bytes
+   (NDP), every Ok item shrinks the state, the final state is exhausted (definitions pinned in
+   Props/C01.v; restates C13_in_bounds / C13_bounded / C13_exhausted and C17_ndp_options) ... *)
+From EP Require Import Parse.StoredIter.
+
+Theorem C02_option_iterators_total :
+  (forall o, tcp_iter_ok o) /\ (forall opts, ndp_iter_ok opts).
+Proof. exact (conj tcp_iter_total ndp_iter_total). Qed.
+Print Assumptions C02_option_iterators_total.
+
+(* ... and composed with the slices a result STORES: options() of every accepted TcpSlice /
+   TcpHeaderSlice returns a window of at most 40 bytes inside the slice whose iteration is total and
+   bounded; payload_slice() of every accepted Icmpv6Slice returns Ok or ErrLen (never UB), the
+   accessors of the typed payload slice return, and the NDP iteration over its options() area is
+   total and bounded.  Single-layer constructors on every slice value: *)
+Theorem C02_stored_iter_single_layer :
+  (forall s x, TcpSlice.from_slice s = Ok x ->
+     exists o, TcpSliceA.options x = Ok o /\ sub_of o s /\ s_len o = fst x - 20 /\ s_len o <= 40 /\
+               tcp_iter_ok o) /\
+  (forall s h, TcpHeaderSliceA.from_slice s = Ok h ->
+     exists o, TcpHeaderSliceA.options h = Ok o /\ sub_of o s /\ s_len o = s_len h - 20 /\ s_len o <= 40 /\
+               tcp_iter_ok o) /\
+  (forall s v, Icmpv6Slice.from_slice s = Ok v ->
+     exists t c pw,
+       icmpv6_payload_slice v = Ok (pw, P6.from_type_u8 t c (snd pw)) /\
+       sub_of pw s /\ s_len pw = s_len s - 8 /\
+       payload_slice_ok pw (P6.from_type_u8 t c (snd pw))).
+Proof. exact stored_iter_single_layer. Qed.
+Print Assumptions C02_stored_iter_single_layer.
+
+(* the transport slice of every strict (4 entry points) or lax (3 entry points) whole-packet result *)
+Theorem C02_packet_tcp_options_iter : forall bs hl s,
+  bytes_ok bs -> stored_transport bs (TrTcp hl s) ->
+  exists o, TcpSliceA.options (hl, s) = Ok o /\ sub_of o s /\ in_window bs o /\
+            s_len o = hl - 20 /\ s_len o <= 40 /\ tcp_iter_in bs o.
+Proof. exact packet_tcp_options_iter. Qed.
+Print Assumptions C02_packet_tcp_options_iter.
+
+Theorem C02_packet_icmp6_payload_slice : forall bs s,
+  stored_transport bs (TrIcmpv6 s) ->
+  exists t c pw,
+    icmpv6_payload_slice s = Ok (pw, P6.from_type_u8 t c (snd pw)) /\
+    sub_of pw s /\ in_window bs pw /\ s_len pw = s_len s - 8 /\
+    payload_slice_in bs pw (P6.from_type_u8 t c (snd pw)).
+Proof. exact packet_icmp6_payload_slice. Qed.
+Print Assumptions C02_packet_icmp6_payload_slice.
+
+(* (c) LaxPacketHeaders::from_linux_sll returns Ok or Err for every byte string of bytes
+   (C06_sll_start_laxheaders + C04_lax_headers_never_bug; Parse/LaxHdrSll.v) *)
+From EP Require Import Parse.LaxHdrSll.
+
+Theorem C02_lax_headers_from_linux_sll_total : forall bs, bytes_ok bs ->
+  (exists p, EP.Parse.HdrLaxModel.LaxPacketHeaders.from_linux_sll bs = Ok p) \/
+  (exists e, EP.Parse.HdrLaxModel.LaxPacketHeaders.from_linux_sll bs = Err e).
+Proof. exact lax_headers_from_linux_sll_total. Qed.
+Print Assumptions C02_lax_headers_from_linux_sll_total.
+
+(* ---- non-vacuity ---------------------------------------------------------- *)
+(* Ethernet II + VLAN + MACsec (unmodified, short length 6, no SCI) + an unknown ether type: no net /
+   transport layer, so payload_ether_type = the ether type behind the SecTAG and ether_payload = the
+   MACsec payload with LenSource::MacsecShortLength; the six runs are Ok.  A malformed TCP option
+   area (MSS announcing length 4 with 3 bytes present) ends the iteration with one error item; an NDP
+   area whose second option has length 0 ends with one accepted option and one error *)
+Definition ex_macsec_pkt : bytes :=
+  [1;2;3;4;5;6; 7;8;9;10;11;12; 129;0;  0;5; 136;229;
+   0; 6; 0;0;0;1; 18;52; 170;187;204;221; 238;255].
+
+Example C02_strict_packet_accessors_ex :
+  match SlicedPacket.from_ethernet ex_macsec_pkt with
+  | Ok p => Some (map (fun x => match x with LeVlan _ => 0 | LeMacsec _ => 1 end) (sp_exts p),
+                  SlicedPacketPA.packet_accessors p,
+                  SlicedPacketPA.payload_ether_type p, SlicedPacketPA.vlan_ids p,
+                  match SlicedPacketPA.ether_payload p with
+                  | Ok (Some e) => Some (ep_ether_type e, ep_src e, win_of (ep_slice e))
+                  | _ => None
+                  end)
+  | _ => None
+  end =
+  Some ([0; 1], [Ok tt; Ok tt; Ok tt; Ok tt; Ok tt; Ok tt],
+        Ok (Some 4660), Ok [5], Some (4660, LsMacsecShortLength, (26, 4))) /\
+  TO.iterate [2; 4; 5] =
+    TO.Ret ([(TO.Err (EP.TcpOpt.Spec.UnexpectedEndOfSlice 2 4 3), [])], []) /\
+  CtlMsg.Model.Ndp.collect 17 [1;1; 10;11;12;13;14;15; 5;0; 0;0;0;0;0;0] =
+    Some [CtlMsg.Spec.IOk CtlMsg.Spec.KSrcLL [1;1; 10;11;12;13;14;15];
+          CtlMsg.Spec.IErr (CtlMsg.Spec.ZeroLength 5)].
+Proof. split; [vm_compute; reflexivity|split; vm_compute; reflexivity]. Qed.
+(* ==== round3 c0102 end ==== *)
